@@ -20,7 +20,8 @@ LEVEL = "model_checking"
 RULE = ("file family = {3 configurations} x event sequences of length n<=6 with unequal row counts; for each file: slice_range 1..n+1, "
         "all indices -n..n-1 (+ both out-of-range ones), all slices 0<=start<stop<=n in every negative/None spelling x step 1..3 x "
         "reader chunk size {None,2}, all 2^(n-1) append-session splits x modes {a, r+}, FileGenerator over ordered lists of 1-2 files x "
-        "slice_range 1..5; states = distinct access paths evaluated, transitions = events read; distinct_nontrivial = access paths "
+        "slice_range 1..5; every sequence of <= 2 (thorough 3) access operations out of 8 (index, full / abandoned iteration, slices, len) on "
+        "one open File x reader chunk size {None,2}, with the event objects handed out observed again at the end; states = distinct access paths evaluated, transitions = events read; distinct_nontrivial = access paths "
         "returning >= 1 event")
 ASSUMPTIONS = ["zero-event files are outside the alphabet (no particle table)",
                "oracle for reader paths is the sequential single-chunk pass of the same file"]
@@ -44,6 +45,7 @@ def cases(tier, seed):
         for sq in (("six", "two") if tier == "quick" else SEQS):
             for kind in ("chunks", "index", "slices", "append"):
                 out.append({"family": fam, "seq": sq, "kind": kind})
+            out.append({"family": fam, "seq": sq, "kind": "mixed", "depth": 2 if tier == "quick" else 3})
     for fam in FAMILY:
         out.append({"family": fam, "kind": "generator"})
     return out
@@ -174,6 +176,48 @@ def evaluate(case):
                                         continue
                                     cmp(label, got, list(range(start, stop, step or 1)), step=step or 1,
                                         negative_stop=bool(b is not None and b < 0))
+        elif case["kind"] == "mixed":
+            # every sequence (length <= depth) of access operations on ONE open File: the answer of each operation is fixed by
+            # the file alone, whatever was read before; event objects handed out earlier are observed again at the very end
+            ops = [("idx", 0), ("idx", n - 1), ("idx", -2 if n > 2 else -1), ("iter",), ("iter_partial", 2 if n > 2 else 1),
+                   ("slice", 1, n - 1, 2), ("slice", None, -1, None), ("len",)]
+            depth = case["depth"]
+            seqs_ = [q for d in range(1, depth + 1) for q in itertools.product(range(len(ops)), repeat=d)]
+            if case.get("ops") is not None:
+                seqs_ = [tuple(case["ops"])]
+            for sr in (None, 2):
+                for q in seqs_:
+                    label0 = "one File (slice_range=%s), operations %s" % (sr, [ops[i] for i in q])
+                    held = []
+                    try:
+                        with File(path, "r", slice_range=sr) as f:
+                            for step_, oi in enumerate(q):
+                                op = ops[oi]
+                                label = "%s, operation #%d" % (label0, step_)
+                                if op[0] == "idx":
+                                    ev = f[op[1]]
+                                    held.append((op[1] % n, ev))
+                                    cmp(label, [hm.observe(ev)], [op[1] % n], ops=list(q))
+                                elif op[0] == "iter":
+                                    cmp(label, _obs_list(f), list(range(n)), ops=list(q))
+                                elif op[0] == "iter_partial":
+                                    # (an iterator is a cursor: `next` hands back the iterator itself, positioned on the next
+                                    # event -- by design; so each event is observed when it is reached and none is held)
+                                    it = iter(f)
+                                    cmp(label, [hm.observe(next(it)) for _ in range(op[1])], list(range(op[1])), ops=list(q))
+                                elif op[0] == "slice":
+                                    want = list(range(n))[op[1]:op[2]:op[3]]
+                                    cmp(label, _obs_list(f[op[1]:op[2]:op[3]]), want, ops=list(q))
+                                else:
+                                    states += 1
+                                    if len(f) != n:
+                                        fail("access-count", "%s: len(file) = %d, %d events" % (label, len(f), n), ops=list(q))
+                            for i_, ev in held:
+                                cmp(label0 + ", event %d handed out earlier and observed at the end" % i_, [hm.observe(ev)], [i_], ops=list(q))
+                    except Exception as e:
+                        if src.exception_origin(e) != "library":
+                            raise
+                        fail("access-exception", "%s raised %s" % (label0, src.short_tb(e)), ops=list(q))
         elif case["kind"] == "append":
             for mode in ("a", "r+"):
                 for split in itertools.product((0, 1), repeat=n - 1):
